@@ -259,6 +259,27 @@ def junk_cases():
     return out
 
 
+def expected_send_body(msg):
+    """(story ID, body) a roStorySend must arrive as, read neutrally from the message: the children before the
+    first storyBody, the storyBody's children (storyItem as item), the children after it; p -> its text or ''."""
+    base = TJ.find(msg, 'roStorySend')
+    if base is None:
+        return None
+    j = next((k for k, c in enumerate(base[4]) if c[0] == 'storyBody'), None)
+    if j is None or TJ.find(base[4][j], 'storyID') is not None:
+        return None
+    kids = base[4][:j] + [(['item'] + c[1:]) if c[0] == 'storyItem' else c for c in base[4][j][4]] + base[4][j + 1:]
+    body = []
+    for c in kids:
+        if c[0] == 'p':
+            if c[4]:
+                return None                      # paragraphs with inline child elements are outside the claim
+            body.append(('p', c[2] or ''))
+        elif c[0] == 'item':
+            body.append(('item', TJ.child_text(c, 'itemID')))
+    return TJ.child_text(base, 'storyID'), body
+
+
 def corpus_docs():
     """Minimised past failures of the accessor family (replayed first on every run)."""
     import glob, json, os
@@ -318,6 +339,26 @@ def evaluate(pid, tier, seed):
                                  'label': f'state of history seed={h["seed"]} after step {st["k"]}',
                                  'history': {'seed': h['seed'], 'docs': h['docs'][:st['k'] + 2]},
                                  'live_history': hist_run.live_script(h, st['k'])}))
+    if pid == 'C17':
+        # "notably roStorySend bodies": the story a roStorySend delivered lists exactly what was sent
+        for h in hists:
+            for st in h['steps']:
+                if st.get('cls') == 'StorySend' and 'view' in st and 'view' in st['view'] and 'obs' in st \
+                        and st['obs']['err'] is None and not st['obs']['warns'] and not st.get('reused_object'):
+                    exp = expected_send_body(TJ.parse(st['msg_text']))
+                    if exp is None:
+                        continue
+                    sid, body = exp
+                    got = [sv for sv in st['view']['view']['stories'] if sv['id'] == sid]
+                    oc.evaluations += 1
+                    oc.count('send-body')
+                    brief = lambda b: [(('p', x['p']) if 'p' in x else ('item', x['item']['id'])) for x in b]
+                    if not got or brief(got[0]['body']) != body:
+                        oc.failing.append({'kind': 'access', 'ro_text': TJ.to_text(st['obs']['ro']), 'label': f'roStorySend body, history seed={h["seed"]} step {st["k"]}',
+                                           'live_history': hist_run.live_script(h, st['k']), 'send_body': {'story': sid, 'expected': body},
+                                           'spec': 'the body of the story a roStorySend delivered is what preceded the storyBody, its children in order '
+                                                   '(storyItem as item, an empty paragraph as the empty string), then what followed it',
+                                           'impl': brief(got[0]['body']) if got else None})
     reqs = [{'op': 'access', 'ro': t, 'impl': v} for (_, t, v, _) in entries]
     resps = lean.run_batch(reqs)
     for (lbl, tree, view, rec), r in zip(entries, resps):
@@ -404,6 +445,17 @@ def replay(pid, fl):
         ro = impl.load(fl['ro_text'])
         tree = TJ.parse(fl['ro_text'])
     view = read_view(ro)
+    if 'send_body' in fl:
+        sb = fl['send_body']
+        got = [sv for sv in view.get('view', {}).get('stories', []) if sv['id'] == sb['story']]
+        brief = lambda b: [[('p', x['p']) if 'p' in x else ('item', x['item']['id'])][0] for x in b]
+        ok = bool(got) and [list(x) for x in brief(got[0]['body'])] == [list(x) for x in sb['expected']]
+        print({'expected': sb['expected'], 'impl': brief(got[0]['body']) if got else None})
+        if not ok:
+            print(f'VIOLATION property={pid} replay=(this file): still fails on the current tree')
+            return 1
+        print(f'{pid}: the recorded input no longer fails on the current tree')
+        return 0
     r = lean.run_batch([{'op': 'access', 'ro': tree, 'impl': view}])[0]
     import json
     print(json.dumps({'impl': project(pid, view), 'model': project(pid, r['model']), 'dom': r['dom'], 'holds': r.get('holds')},
